@@ -871,7 +871,7 @@ def check_C01(ctx):
     maxr, lo, hi = (4, -2, 6) if q else (6, -3, 9)
     ctx.design("MCOrdinals", "CONSTANTS MaxR = %d\n NegLo = %d\n Hi = %d\nINIT Init\nNEXT Next\nCHECK_DEADLOCK FALSE\nINVARIANT Inv\n" % (maxr, -lo, hi if q else 7),
                "ordinals")
-    # unbounded in the slot VALUES (and in r): inductive invariant of the slot walk, Apalache; lists of up to 5 slots
+    # unbounded in the slot VALUES (and in r): inductive invariant of the slot walk, Apalache; lists of up to 10 slots
     ctx.apalache("OrdinalsInd", [("Init", "IndInv", 0), ("IndInit", "IndInv", 1), ("IndInit", "Final", 0)], "slot-walk")
     args = ["ordinals", "--maxr", str(maxr), "--lo", str(lo), "--hi", str(hi), "--nrand", "40" if q else "2000",
             "--ctl-every", "3" if q else "2", "--seed", str(vlib.seed()), "--workers", str(vlib.NCPU)]
